@@ -72,8 +72,23 @@ def gen_jobs(tier, seed):
                 t = rand_dep(rng, 2) if r < 0.6 else cls(rng.choice([1, 2]))
             elif shape == 2:    # class hierarchy bounds
                 t = rand_dep(rng, rng.choice([4, 5, 1])) if r < 0.6 else cls(rng.choice([1, 4, 5, 6]))
-            elif shape == 3:    # union of dependents with different bounds (bound guard per arm)
-                t = {"k": "union", "args": [rand_dep(rng, 2), rand_dep(rng, 3)]} if r < 0.5 else cls(rng.choice([1, 2, 3]))
+            elif shape == 3:    # unions of dependents with different bounds, with static members, nested composites
+                u = rng.random()
+                if r >= 0.6:
+                    t = cls(rng.choice([1, 2, 3]))
+                elif u < 0.35:
+                    t = {"k": "union", "args": [rand_dep(rng, 2), rand_dep(rng, 3)]}
+                elif u < 0.55:      # a dependent member before / after a static member
+                    args = [rand_dep(rng, 2), cls(3)]
+                    rng.shuffle(args)
+                    t = {"k": "union", "args": args}
+                elif u < 0.8:       # an intersection nested in a union
+                    t = {"k": "union", "args": [cls(3), {"k": "inter", "args": [cls(2), rand_dep(rng, 2)]}]}
+                elif u < 0.9:       # an intersection of dependents (no static member) nested in a union with another bound
+                    t = {"k": "union", "args": [rand_lit(rng) if rng.random() < 0.5 else rand_dep(rng, 2),
+                                                {"k": "inter", "args": [rand_dep(rng, 3), rand_dep(rng, 3)]}]}
+                else:               # an intersection nested in an intersection
+                    t = {"k": "inter", "args": [cls(1), {"k": "inter", "args": [cls(2), rand_dep(rng, 2)]}]}
             else:
                 t = rng.choice([rand_dep(rng), rand_lit(rng), cls(rng.choice([1, 2, 3, 4, 5, 6]))])
             pos = [t]
